@@ -56,3 +56,21 @@ spec fn appended_ex(old_d: Seq<Diagnostic>, new_d: Seq<Diagnostic>, xs: Seq<EX>)
     &&& new_d.len() == old_d.len() + xs.len()
     &&& forall |i: int| old_d.len() <= i < new_d.len() ==> matches_ex(#[trigger] new_d[i], xs[i - old_d.len()])
 }
+
+// ---------- head / tail forms (to attribute a deviation to the property whose diagnostics are affected) ----------
+// the first |xs| appended diagnostics are xs
+spec fn head_ex(old_d: Seq<Diagnostic>, new_d: Seq<Diagnostic>, xs: Seq<EX>) -> bool {
+    &&& prefix_kept(old_d, new_d)
+    &&& new_d.len() >= old_d.len() + xs.len()
+    &&& forall |i: int| old_d.len() <= i < old_d.len() + xs.len() ==> matches_ex(#[trigger] new_d[i], xs[i - old_d.len()])
+}
+// the last |xs| appended diagnostics are xs
+spec fn tail_ex(old_d: Seq<Diagnostic>, new_d: Seq<Diagnostic>, xs: Seq<EX>) -> bool {
+    &&& prefix_kept(old_d, new_d)
+    &&& new_d.len() >= old_d.len() + xs.len()
+    &&& forall |i: int| new_d.len() - xs.len() <= i < new_d.len() ==> matches_ex(#[trigger] new_d[i], xs[i - (new_d.len() - xs.len())])
+}
+// whatever was appended before the last n entries carries no related information
+spec fn plain_before_tail(old_d: Seq<Diagnostic>, new_d: Seq<Diagnostic>, n: int) -> bool {
+    forall |i: int| old_d.len() <= i < new_d.len() - n ==> (#[trigger] new_d[i]).related_infos@.len() == 0
+}
